@@ -12,27 +12,36 @@ pub fn by_f(a: &F, b: &F) -> bool { a.0.to_bits() == b.0.to_bits() }
 pub fn by_u(a: &u8, b: &u8) -> bool { a == b }
 pub fn cmp_f(a: &F, b: &F) -> ::core::cmp::Ordering { a.0.total_cmp(&b.0) }
 pub fn cmp_u(a: &u8, b: &u8) -> ::core::cmp::Ordering { a.cmp(b) }
+pub fn pcmp_f(a: &F, b: &F) -> Option<::core::cmp::Ordering> { a.0.partial_cmp(&b.0) }
+pub fn pcmp_u(a: &u8, b: &u8) -> Option<::core::cmp::Ordering> { a.partial_cmp(b) }
 '''
 
 
+ORDER = ['partial_eq', 'eq', 'partial_ord', 'ord']           # what `==` consults, most specific first
+PAIRS = [('eq', 'ord'), ('partial_eq', 'eq'), ('partial_eq', 'ord'), ('partial_ord', 'ord'), ('partial_ord', 'eq')]
+BYFN = {'eq': 'by_', 'partial_eq': 'by_', 'ord': 'cmp_', 'partial_ord': 'pcmp_'}
+
+
 def double_options():
-    """one field carrying BOTH #[eq(..)] and #[ord(..)]: the more specific #[eq(..)] decides what is compared"""
+    """one field carrying TWO customisations, one of them `#[eq(..)]` or `#[ord(..)]` (so that `Eq` accepts the field):
+    what has to be `Eq` is what `==` compares - the most specific of partial_eq / eq / partial_ord / ord decides"""
     out = []
     for tn, t in (('u8', sx.tid('u8')), ('F', sx.tid('F'))):
         keys = {'key-eq': ('( $ / 2 )' if tn == 'u8' else '$ . 0 . to_bits ( )', True),
                 'key-noneq': ('( $ as f32 )' if tn == 'u8' else '$ . 0', False)}
         def mk(attr, opt):
             if opt == 'by':
-                fn = ('by_' if attr == 'eq' else 'cmp_') + tn[0].lower()
-                return sx.a_cmp(attr, sx.m_list(sx.cargs(by=fn))), True
+                return sx.a_cmp(attr, sx.m_list(sx.cargs(by=BYFN[attr] + tn[0].lower()))), True
             return sx.a_cmp(attr, sx.m_list(sx.cargs(key=keys[opt][0]))), keys[opt][1]
-        for eo in ('key-eq', 'key-noneq', 'by'):
-            for oo in ('key-eq', 'key-noneq', 'by'):
-                ea, ok = mk('eq', eo)
-                oa, _ = mk('ord', oo)
-                for order in (0, 1):
-                    out.append(('%s-eq:%s+ord:%s%s' % (tn, eo, oo, '-rev' if order else ''), t,
-                                [ea, oa] if order == 0 else [oa, ea], ok))
+        for a1, a2 in PAIRS:
+            for o1 in ('key-eq', 'key-noneq', 'by'):
+                for o2 in ('key-eq', 'key-noneq', 'by'):
+                    x1, ok1 = mk(a1, o1)
+                    x2, ok2 = mk(a2, o2)
+                    ok = ok1 if ORDER.index(a1) < ORDER.index(a2) else ok2
+                    for order in (0, 1):
+                        out.append(('%s-%s:%s+%s:%s%s' % (tn, a1, o1, a2, o2, '-rev' if order else ''), t,
+                                    [x1, x2] if order == 0 else [x2, x1], ok))
     return out
 
 
@@ -59,8 +68,8 @@ class C17(Prop):
     tag = 'the Eq impl and its hidden checker (CONST part)'
     rule = ('EXHAUSTIVE over: {struct named/tuple, enum with the fields in the 1st/2nd variant, named or tuple} x 1-3 fields, each from 9 '
             'options {u8, F (PartialEq only), F ignored, u8 ignored, F key->Eq, u8 key->non-Eq, F key->non-Eq, F by, u8 key->Eq} on '
-            '#[eq(..)] or #[ord(..)] x both entry points; one field carrying both #[eq(o1)] and #[ord(o2)], o in {key->Eq, key->non-Eq, by}, '
-            'either order; `#[hash(ignore)]` on an Eq / non-Eq field with Hash derived alongside; plus generic X<T> with default / overriding bound(..); compiled '
+            '#[eq(..)] or #[ord(..)] x both entry points; one field carrying two customisations (eq+ord, partial_eq+eq, partial_eq+ord, partial_ord+ord, partial_ord+eq), each o in {key->Eq, key->non-Eq, by}, '
+            'either order - the most specific one (what `==` compares) decides; `#[hash(ignore)]` on an Eq / non-Eq field with Hash derived alongside; plus generic X<T> with default / overriding bound(..); compiled '
             '(metadata only) against the real proc-macro: accepted iff every compared component is Eq; non-trivial = every case')
     assumptions = ['rustc rejects an unsatisfied `T: Eq` obligation (trusted; observed on every rejecting case)']
 
@@ -162,6 +171,8 @@ class C17(Prop):
             # the same with Ord / PartialOrd derived alongside (they look at `#[ord(..)]` only): the Eq obligation on the
             # `#[eq(key = ..)]` value stays; a non-Ord `#[ord(key = ..)]` value is refused for Ord's own reason
             ord_key_ok = '+ord:key-noneq' not in name
+            if '-eq:' not in name or '+ord:' not in name:
+                continue            # (the other pairs are derived with Eq / PartialEq only)
             for tl in ([('Ord', None), ('PartialOrd', None), ('Eq', None), ('PartialEq', None)],
                        [('Eq', None), ('PartialEq', None), ('PartialOrd', None), ('Ord', None)]):
                 req = sx.inv_attr(sx.dx(tl), it) if mode == 'attr' else sx.inv_derive(
